@@ -31,7 +31,7 @@ def wrap_term(I, ty, term):
         return SV(ty, term)
     if isinstance(ty, tuple):
         if ty[0] == 'rec':
-            classes = ty[1] if isinstance(ty[1], list) else [ty[1]]
+            classes = list(ty[1]) if isinstance(ty[1], (list, tuple)) else [ty[1]]
             sv = SV('rec', term, cls=classes[0] if len(classes) == 1 else None, extra={'classes': list(classes)})
             fact = z3.Or(*[TY.cls_of(term) == TY.class_id(c) for c in classes])
             I.path.hints.append(fact) if not any(fact.eq(h) for h in I.path.hints) else None
